@@ -22,7 +22,8 @@ Section KN.
     f1 <- bernoulli2 (- nlog eps0) (nhalf * (n1 - nsq eps0)) ;;
     '(eps, eps_sq) <- (if f1 then e <- reciprocal n1 eps0 ;; ret (e, e * e)
                        else e2 <- uniform (nsq eps0) n1 ;; ret (nsqrt e2, e2)) ;;
-    let omc := (n1 - eps) / (eps * k) in
+    (* min((1 - epsilon) / (epsilon * k), 2): bounded since /repo 01d8a4d *)
+    let omc := nmin ((n1 - eps) / (eps * k)) n2 in
     let sintheta_sq := omc * (n2 - omc) in
     ret (eps, omc, eps * sintheta_sq / (n1 + eps_sq)).
 
